@@ -1122,7 +1122,7 @@ def units(tier, seed):
             tg = [[m] for m in tg]
             add('project-analytic-' + t, body_project(f, l, s, tg, 'analytic'), P(f, l, s, path='analytic', targets=tg),
                 len(tg) * 2)
-    for n in ([5, 12] if not th else [5, 12, 25]):
+    for n in ([5, 12] if not th else [5, 12, 18]):  # n=25 needs ~25 min under load: above the per-unit cap
         add('overshoot-1d-A-L5-n%d' % n, body_overshoot_1d(5, n, False), dict(L=5, n=n, grid='A', eps='[0,1e-16] symbolic'),
             2 * n + 5, paths=4, maxpaths=64)
         f, l, s = ['B'], [5], [n]
